@@ -265,6 +265,52 @@ FILE_GROUPS = {
     'athlib/implements.py': ['control', 'athlon'], 'athlib/uka/agegroups.py': ['control'], 'athlib/codes.py': [],
 }
 TREE_BIAS = {'modified': [], 'boosted': []}
+CHANGED = {}
+
+
+def baseline_commit():
+    try:
+        with open(os.path.join(common.VERIF_DIR, 'BASELINE_REPO_COMMIT')) as f:
+            return f.read().strip()
+    except Exception:
+        return None
+
+
+def changed_lines():
+    """{absolute file: set(line numbers in the tree under test)} touched by the difference between the tree
+    under test and the commit the evidence was recorded on (falls back to HEAD; {} without git)."""
+    import subprocess
+    out = {}
+    for base in (baseline_commit(), 'HEAD'):
+        if not base:
+            continue
+        try:
+            p = subprocess.run(['git', '-C', common.REPO, 'diff', '-U0', base, '--', 'athlib'],
+                               capture_output=True, text=True, timeout=30)
+        except Exception:
+            continue
+        if p.returncode != 0:
+            continue
+        cur = None
+        for l in p.stdout.splitlines():
+            if l.startswith('+++ '):
+                cur = l[6:].strip() if l.startswith('+++ b/') else None
+            elif l.startswith('@@') and cur and cur.endswith('.py'):
+                m = re.match(r'@@ -\d+(?:,\d+)? \+(\d+)(?:,(\d+))? @@', l)
+                if m:
+                    start = int(m.group(1)); n = int(m.group(2)) if m.group(2) is not None else 1
+                    ls = out.setdefault(os.path.join(common.REPO, cur), set())
+                    for x in range(start, start + max(n, 1)):
+                        ls.add(x)
+        break
+    return out
+
+
+def near_changed(key, changed, radius=4):
+    ls = changed.get(key[0])
+    if not ls:
+        return False
+    return any(abs(key[1] - x) <= radius for x in ls)
 
 
 def apply_tree_bias():
@@ -281,7 +327,11 @@ def apply_tree_bias():
             if p.returncode == 0 else []
     except Exception:
         files = []
+    ch = changed_lines()
+    CHANGED.clear(); CHANGED.update(ch)
+    files = sorted(set(files) | set(os.path.relpath(f, common.REPO) for f in ch))
     boosted = sorted(set(g for f in files for g in FILE_GROUPS.get(f, [])))
+    TREE_BIAS['changed_lines'] = {os.path.relpath(f, common.REPO): len(v) for f, v in sorted(ch.items())}
     TREE_BIAS['modified'] = files
     TREE_BIAS['boosted'] = boosted
     if boosted:
@@ -467,6 +517,7 @@ class _Recorder(object):
         self.wlines = set()
         self.codes = set()
         self.static = set()
+        self.blines = set()
     def glob(self, frame, event, arg):
         code = frame.f_code
         if code.co_filename.startswith(self.adir):
@@ -487,6 +538,8 @@ class _Recorder(object):
             self.cur.append(key)
             if frame.f_lineno in thrsched.write_lines(code):
                 self.wlines.add(key)
+            if frame.f_lineno in thrsched.branch_lines(code):
+                self.blines.add(key)
         return self.local
 
 
@@ -509,7 +562,7 @@ def run_sequential(athlib, programs, order):
             sys.settrace(None)
         traces[t].extend(rec.cur)
         static[t] |= rec.static
-    return outs, traces, (rec.wlines, static)
+    return outs, traces, (rec.wlines, static, rec.blines)
 
 
 def run_schedule(athlib, programs, sched_spec, step_cap, record=False):
@@ -539,15 +592,15 @@ def quiet_stdout():
 # ---------------------------------------------------------------------------------------------
 # schedules
 
-SAMPLERS = ('step', 'line', 'write', 'static')
-SAMPLER_WEIGHTS = [('step', 30), ('line', 30), ('write', 30), ('static', 10)]
+SAMPLERS = ('step', 'line', 'write', 'branch', 'static')
+SAMPLER_WEIGHTS = [('step', 25), ('line', 25), ('write', 25), ('branch', 15), ('static', 10)]
 
 
-def draw_schedule(rng, nthreads, traces, wlines, used=None):
+def draw_schedule(rng, nthreads, traces, wlines, used=None, focus=None):
     """One seeded schedule.  `used` (per scenario) remembers the pre-emption sets already tried, so that
     the K schedules of a scenario are K *different* ones (sampling without replacement)."""
     for attempt in range(6):
-        spec = _draw_schedule(rng, nthreads, traces, wlines)
+        spec = _draw_schedule(rng, nthreads, traces, wlines, focus)
         if used is None:
             return spec
         key = (spec['first'], tuple((p['thread'], p['file'], p['line'], p['occ'], p['to']) for p in spec['preemptions']))
@@ -557,7 +610,7 @@ def draw_schedule(rng, nthreads, traces, wlines, used=None):
     return spec
 
 
-def _draw_schedule(rng, nthreads, traces, wlines):
+def _draw_schedule(rng, nthreads, traces, wlines, focus=None):
     """traces[t] = the distinct line traces [(file, line), ...] thread t's program had sequentially."""
     d = weighted(rng, [(0, 5), (1, 35), (2, 45), (3, 15)])
     sampler = weighted(rng, SAMPLER_WEIGHTS)
@@ -575,6 +628,23 @@ def _draw_schedule(rng, nthreads, traces, wlines):
         if not tr:
             continue
         st = getattr(wlines, 'static', None)
+        if focus and rng.random() < 0.5:
+            # near the lines that differ from the baseline commit
+            cand = [j for j, k2 in enumerate(tr) if k2 in focus]
+            if cand and rng.random() < 0.8:
+                key = tr[rng.choice(sorted(set(tr[j] for j in cand)) and cand)]
+                occs = [j for j in cand if tr[j] == key]
+                i = rng.choice(occs)
+                occ = sum(1 for k2 in tr[:i + 1] if k2 == key)
+            else:
+                fl = sorted(k2 for k2 in focus if st and tuple(k2) in set(map(tuple, st[t])))
+                if not fl:
+                    fl = sorted(focus)
+                key = rng.choice(fl); occ = 1
+            others = [x for x in range(nthreads) if x != t]
+            pre.append({'thread': t, 'file': os.path.relpath(key[0], common.ATHLIB_DIR), 'line': key[1],
+                        'occ': occ, 'to': rng.choice(others)})
+            continue
         if sampler == 'static' and st and st[t] and rng.random() < 0.8:
             # any line of any function this thread entered - executed sequentially or not - first time reached
             key = tuple(rng.choice(st[t]))
@@ -582,7 +652,20 @@ def _draw_schedule(rng, nthreads, traces, wlines):
             pre.append({'thread': t, 'file': os.path.relpath(key[0], common.ATHLIB_DIR), 'line': key[1],
                         'occ': rng.choice([1, 1, 1, 2]), 'to': rng.choice(others)})
             continue
-        if sampler == 'step':
+        bl = getattr(wlines, 'branches', None)
+        if sampler == 'branch' and bl:
+            # the line executed right after a conditional test (first line of the branch taken): where a
+            # check-then-act window opens.  Uniform over the distinct (test line, next line) pairs.
+            pairs = {}
+            for j in range(len(tr) - 1):
+                if tr[j] in bl and tr[j + 1] != tr[j]:
+                    pairs.setdefault((tr[j], tr[j + 1]), []).append(j + 1)
+            if pairs:
+                pk = rng.choice(sorted(pairs))
+                i = rng.choice(pairs[pk])
+            else:
+                i = rng.randrange(len(tr))
+        elif sampler == 'step':
             i = rng.randrange(len(tr))
         elif sampler == 'line':
             lines = sorted(set(tr))
@@ -630,6 +713,7 @@ def violation_class(programs, accepted, res):
 class WLines(set):
     """the write lines of a scenario, plus .static[t]: every line of every athlib function thread t entered"""
     static = None
+    branches = None
 
 
 def oracle(athlib, programs, wall_cap=60.0):
@@ -644,14 +728,16 @@ def oracle(athlib, programs, wall_cap=60.0):
     traces = [[] for _ in programs]
     wlines = set()
     static = [set() for _ in programs]
+    blines = set()
     norders = 0
     for order in linearizations(lens):
         def job(order=order):
             quiet_stdout()
             return run_sequential(athlib, programs, order)
-        outs, trs, (wl, st) = common.fork_call(job, wall_cap=wall_cap, what='sequential oracle run')
+        outs, trs, (wl, st, bl) = common.fork_call(job, wall_cap=wall_cap, what='sequential oracle run')
         norders += 1
         wlines |= wl
+        blines |= bl
         for t in range(len(programs)):
             static[t] |= st[t]
         for t in range(len(programs)):
@@ -663,6 +749,7 @@ def oracle(athlib, programs, wall_cap=60.0):
         traces[t].sort(key=lambda tr: (-len(tr), tr))
     wlines = WLines(wlines)
     wlines.static = [sorted(x) for x in static]
+    wlines.branches = blines
     return accepted, traces, wlines, norders
 
 
@@ -689,9 +776,26 @@ def scenario_job(athlib, scn, sched_seeds, opts):
     rd = 0
     used = set()
     stalls = 0
+    # change-aware budget, line level: if the tree under test differs from the baseline commit, scenarios
+    # whose calls execute (or whose functions contain) lines near the difference get 1.5 K schedules, the
+    # others K/4, and half of a touching scenario's pre-emptions are placed near the changed lines
+    focus = None
+    if CHANGED:
+        touched = set()
+        for tt in traces:
+            for tr in tt:
+                touched.update(k2 for k2 in set(tr) if near_changed(k2, CHANGED))
+        for st_ in (wlines.static or []):
+            touched.update(tuple(k2) for k2 in st_ if near_changed(tuple(k2), CHANGED))
+        if touched:
+            focus = touched
+            cnt.inc('scenarios_touching_changed_lines')
+            sched_seeds = list(sched_seeds) + [common.run_seed(PROP, 'extra', sched_seeds[0], j) for j in range(len(sched_seeds) // 2)]
+        else:
+            sched_seeds = list(sched_seeds)[:max(2, len(sched_seeds) // 4)]
     for k, sseed in enumerate(sched_seeds):
         rng = random.Random(sseed)
-        spec = draw_schedule(rng, len(programs), traces, wlines, used)
+        spec = draw_schedule(rng, len(programs), traces, wlines, used, focus)
         res = run_one(athlib, programs, spec, step_cap)
         rd = (rd + common.run_digest_term(sseed, [res['status'], common.canon_outcome(res['out']), res['switches'], res['digest']])) & ((1 << 64) - 1)
         cnt.inc('runs')
